@@ -17,6 +17,7 @@ package main
 import (
 	"bytes"
 	"fmt"
+	"hash/fnv"
 	"reflect"
 	"strconv"
 	"strings"
@@ -131,11 +132,11 @@ func (c04SrvPlugin) PostReadCallBody(erpc.ReadCtx) *erpc.Status   { return c04Ve
 
 type c04CliPlugin struct{}
 
-func (c04CliPlugin) Name() string                                   { return "c04cli" }
-func (c04CliPlugin) PreWriteCall(erpc.WriteCtx) *erpc.Status        { return c04Veto("vetoC", "w") }
-func (c04CliPlugin) PostReadReplyHeader(erpc.ReadCtx) *erpc.Status  { return c04Veto("vetoC", "h") }
-func (c04CliPlugin) PreReadReplyBody(erpc.ReadCtx) *erpc.Status     { return c04Veto("vetoC", "b") }
-func (c04CliPlugin) PostReadReplyBody(erpc.ReadCtx) *erpc.Status    { return c04Veto("vetoC", "p") }
+func (c04CliPlugin) Name() string                                  { return "c04cli" }
+func (c04CliPlugin) PreWriteCall(erpc.WriteCtx) *erpc.Status       { return c04Veto("vetoC", "w") }
+func (c04CliPlugin) PostReadReplyHeader(erpc.ReadCtx) *erpc.Status { return c04Veto("vetoC", "h") }
+func (c04CliPlugin) PreReadReplyBody(erpc.ReadCtx) *erpc.Status    { return c04Veto("vetoC", "b") }
+func (c04CliPlugin) PostReadReplyBody(erpc.ReadCtx) *erpc.Status   { return c04Veto("vetoC", "p") }
 
 func c04NewServer() erpc.Peer {
 	srv := erpc.NewPeer(erpc.PeerConfig{}, c04SrvPlugin{})
@@ -461,6 +462,23 @@ func c04Run(line string, out *hx.Out) (obs string, nontrivial bool) {
 		method = c04Routes[2].name
 	case "closed":
 		l.A.Close()
+	}
+	// A third of the cases (a function of the case line) run with a slow-returning write on the calling
+	// side (seed C04-D): the request is on the wire, the peer answers and the answer reaches the
+	// caller's read loop while the caller is still inside its Write. The status the caller finally
+	// sees must not depend on that (on code where the reply is shielded from the call until the
+	// write has returned this only delays the case by a few milliseconds).
+	if h := fnv.New32a(); true {
+		h.Write([]byte(line))
+		if h.Sum32()%3 == 0 {
+			out.Count("slow-returning-write")
+			base, _ := l.CB.Sent()
+			n0 := len(base)
+			l.CA.SetAfterWrite(func() {
+				waitUntil(25*time.Millisecond, func() bool { b, _ := l.CB.Sent(); return len(b) > n0 })
+				time.Sleep(3 * time.Millisecond)
+			})
+		}
 	}
 	result := c04NewResult(c.rtype)
 	var st *erpc.Status
